@@ -152,3 +152,66 @@ def audit(fb, chk, rule, group, pop, classes, guards):
         else:
             chk.ok(rule, "%s class %s" % (group, k), "%d site(s) <= %d audited; %s" % (len(ss), c["max"], c.get("reason", "")), where[0] if where else None)
     return n_ok
+
+
+def _split_top(s):
+    out, depth, cur = [], 0, ""
+    for ch in s:
+        if ch in "<([":
+            depth += 1
+        elif ch in ">)]":
+            depth -= 1
+        if ch == "," and depth == 0:
+            out.append(cur)
+            cur = ""
+        else:
+            cur += ch
+    if cur.strip():
+        out.append(cur)
+    return out
+
+
+def type_class(ty):
+    """Coarse, position-free class of a receiver type: outer head + head of its element type."""
+    if not ty:
+        return "-"
+    ty = _re.sub(r"'\w+ ?", "", ty)
+
+    def head(s, depth=0):
+        s = s.strip()
+        s = _re.sub(r"^&(mut )?", "", s)
+        m = _re.match(r"^\[(.*?)(; \d+)?\]$", s)
+        if m:
+            return "[" + head(m.group(1), depth + 1) + "]"
+        m = _re.match(r"^\((.*)\)$", s)
+        if m:
+            return "(" + ",".join(head(x, depth + 1) for x in _split_top(m.group(1))[:2]) + ")"
+        m = _re.match(r"^([\w:]+)<(.*)>$", s)
+        if m:
+            h = m.group(1).split("::")[-1]
+            if depth >= 1:
+                return h
+            parts = [x for x in _split_top(m.group(2)) if x.strip() and not x.strip().startswith("'")]
+            return h + "<" + (head(parts[0], depth + 1) if parts else "") + ">"
+        if s.startswith("{closure"):
+            return "{closure}"
+        return s.split("::")[-1]
+    return head(_split_top(ty)[0] if not ty.startswith("(") else ty)
+
+
+def coarse_key(s):
+    """Class key for the library-wide audit: kind | callee or assert kind | receiver type class [| origin callee for unwrap-like]."""
+    if s["kind"] == "assert":
+        return "assert|%s|%s" % (s["what"], s.get("ty"))
+    if s["kind"] == "diverge":
+        return "diverge|%s" % s["what"]
+    if s["kind"] == "intarith":
+        return s["key"]
+    callee = s["what"]
+    k = "call|%s|%s" % (callee, norm_key(type_class(s.get("ty") or "")))
+    if _re.search(r"::(unwrap|expect)$", callee):
+        org = s.get("origin") or ""
+        org = _re.sub(r"<.*$", "", org).lstrip("&")
+        org = "::".join(org.split("::")[-2:]) if org else "?"
+        k += "|<-" + org
+    return k
